@@ -3,7 +3,7 @@
 From Coq Require Import ZArith List QArith.
 From PV Require Import Lib.Base Model.TailsZ Model.Pvalues Proofs.QLemmas.
 From mathcomp Require Import all_ssreflect.
-From PV Require Import Lib.Tails Lib.Binom Proofs.PvaluesProofs.
+From PV Require Import Lib.Tails Lib.Binom Lib.TwoSided Proofs.PvaluesProofs Proofs.TwoSidedProofs.
 Local Open Scope nat_scope.
 
 (* The model's tails are the textbook tails: weights C(G,k)C(N-G,n-k) with total C(N,n)
@@ -78,6 +78,27 @@ Theorem C14_mass_up_is_sum_over_accepted_outcomes : forall P (w : seq nat),
   mass_up P w = \sum_(0 <= x < size w) (if P (upper w x) then nth 0 w x else 0).
 Proof. exact mass_up_spec. Qed.
 Print Assumptions C14_mass_up_is_sum_over_accepted_outcomes.
+
+(* two-sided validity, for every null parameter and every level c/d: the total probability weight of the
+   outcomes x whose two-sided p-value min(1, 2 min(lower, upper)/total) is <= c/d is at most c/d of the total.
+   mass2 c d w = sum of w_x over the x with two_accept c d total (lower w x) (upper w x), and two_accept is
+   exactly "the model's two_sided value is <= c/d" *)
+Theorem C14_two_sided_pvalues_valid : forall N G n a b c d,
+  (G <= N -> mass2 c d (whyper N G n) * d <= c * 'C(N, n)) /\
+  mass2 c d (wbinom n a b) * d <= c * (a + b) ^ n.
+Proof. intros N G n a b c d. split; [exact (@hyper_two_sided_valid N G n c d)|exact (binom_two_sided_valid n a b c d)]. Qed.
+Print Assumptions C14_two_sided_pvalues_valid.
+
+Theorem C14_two_sided_acceptance_is_the_model_pvalue : forall lo up tot c d, 0 < tot -> 0 < d ->
+  (two_sided (q_of (Z.of_nat lo) (Z.of_nat tot)) (q_of (Z.of_nat up) (Z.of_nat tot))
+     <= inject_Z (Z.of_nat c) / inject_Z (Z.of_nat d))%Q <-> two_accept c d tot lo up.
+Proof. exact two_accept_iff. Qed.
+Print Assumptions C14_two_sided_acceptance_is_the_model_pvalue.
+
+Theorem C14_mass2_is_sum_over_accepted_outcomes : forall c d (w : seq nat),
+  mass2 c d w = \sum_(0 <= x < size w) (if two_accept c d (sumn w) (lower w x) (upper w x) then nth 0 w x else 0).
+Proof. reflexivity. Qed.
+Print Assumptions C14_mass2_is_sum_over_accepted_outcomes.
 
 (* arguments that cannot occur raise ValueError, all others return a number *)
 Theorem C14_hypergeometric_guards : forall x N n G a,
